@@ -248,7 +248,18 @@ class Run:
             if f.first() != m["first"] or f.last() != m["last"] or min(e[1] for e in f.ents) != m["sts"] or max(e[1] for e in f.ents) != m["bts"]:
                 self.problem("corr", what="metadata does not describe contents", file=n, meta=str(m))
 
+    def l0_ties(self, levels):
+        """the model's L0 lookup order is by biggest timestamp; two L0 files with the SAME biggest timestamp are
+        outside what it fixes (cannot come from flushes or accepted ingests; a recovered tree could hold them)"""
+        seen = {}
+        for n in levels[0]:
+            b = self.meta[n]["bts"]
+            if b in seen:
+                self.problem("corr", what="two level-0 files with the same biggest timestamp: lookup order between them is outside the model", files=[seen[b][:8], n[:8]], bts=b)
+            seen[b] = n
+
     def compare_version(self, levels, where):
+        self.l0_ties(levels)
         v = self.model.cmd("V")
         ids = v.split(" ")[1].split("/")
         mine = [",".join(str(self.fid(n)) for n in lv) for lv in levels]
@@ -303,7 +314,10 @@ class Run:
                 if a["first"] <= b["last"] and b["first"] <= a["last"] and not (a["bts"] < b["sts"] or b["bts"] < a["sts"]):
                     k2 = True
         if k2:
-            self.known_events.append(("K2", "reopen of a tree holding files that overlap in key range and timestamp range: recovered levels wf=%s ordered=%s" % (bits[2], bits[3]), len(self.events)))
+            # 4th field: was the recovered tree at least well-formed?  (if it is not, binary searches inside a level and
+            # the selector's asserts are undefined from here on; if it is, the store must keep behaving as the MODEL
+            # run on that recovered arrangement does - only the order of versions is wrong)
+            self.known_events.append(("K2", "reopen of a tree holding files that overlap in key range and timestamp range: recovered levels wf=%s ordered=%s" % (bits[2], bits[3]), len(self.events), bits[2] == "1"))
         else:
             self.problem("invalid", what="reopen produced a tree that is not well-formed/ordered and no K2 pair exists", bits=bits)
 
